@@ -70,6 +70,20 @@ class BackendPlan(object):
 ALL_COMPILED = ('cython_add', 'cython_profiles', 'cython_distances', 'cython_directionality')
 
 
+class _PkgProxy(object):
+    """stands for the package `pyspike.cython` in `from pyspike.cython import cython_x`"""
+
+    def __init__(self, real, mods):
+        self.__dict__['_real'] = real
+        self.__dict__['_mods'] = mods
+
+    def __getattr__(self, name):
+        mods = self.__dict__['_mods']
+        if name in mods:
+            return mods[name]
+        return getattr(self.__dict__['_real'], name)
+
+
 class World(object):
     def __init__(self, repo=None):
         repo = os.path.realpath(repo or os.environ.get('VERIF_REPO') or '/repo')
@@ -96,9 +110,12 @@ class World(object):
         self.lowered_funcs = {}
         self.lowered_code = {}
         self._lower_all()
+        self._baseline = None
+        self.snapshot_state()
         self.plan = BackendPlan(())
         self.events = None        # list to append seam events to, or None
         self.shadow = None        # object with wrap(modshort, module) or None
+        self._injected = []
         self.installed = False
 
     # ------------------------------------------------------------------
@@ -129,6 +146,107 @@ class World(object):
             self.lowered_code[short] = code
             _rt.CIMPORT['pyspike.cython.' + short] = mod
 
+    # ------------------------------------------------------------------
+    # process-restart emulation: every run starts from the module state PySpike has
+    # right after import (memos, caches, mutated defaults, module flags do not leak
+    # from one run into the next, so a replay in a fresh interpreter sees the same)
+    def _state_modules(self):
+        mods = [m for n, m in sorted(sys.modules.items())
+                if (n == 'pyspike' or n.startswith('pyspike.')) and m is not None]
+        mods += [self.compiled[k] for k in sorted(self.compiled)]
+        return mods
+
+    @staticmethod
+    def _copy_container(v):
+        import copy
+        try:
+            return copy.deepcopy(v)
+        except Exception:
+            return None
+
+    def snapshot_state(self):
+        base = []
+        for m in self._state_modules():
+            names = dict(m.__dict__)
+            cont = {}
+            funcs = {}
+            classes = {}
+            for k, v in names.items():
+                if isinstance(v, (dict, list, set, bytearray)) and not k.startswith('__'):
+                    c = self._copy_container(v)
+                    if c is not None:
+                        cont[k] = c
+                elif isinstance(v, types.FunctionType) and getattr(v, '__module__', None) == m.__name__:
+                    funcs[k] = (dict(v.__dict__), self._copy_container(v.__defaults__),
+                                self._copy_container(v.__kwdefaults__))
+                elif isinstance(v, type) and getattr(v, '__module__', None) == m.__name__:
+                    cattrs = {}
+                    for ck, cv in list(v.__dict__.items()):
+                        if isinstance(cv, (dict, list, set)) and not ck.startswith('__'):
+                            cattrs[ck] = self._copy_container(cv)
+                    classes[k] = (set(v.__dict__), cattrs)
+            base.append((m, names, cont, funcs, classes))
+        self._baseline = base
+
+    def reset_state(self):
+        import copy
+        for m, names, cont, funcs, classes in self._baseline:
+            d = m.__dict__
+            for k in list(d):
+                if k not in names:
+                    del d[k]
+            for k, v in names.items():
+                if d.get(k, None) is not v:
+                    d[k] = v
+                cc = getattr(v, 'cache_clear', None)
+                if cc is not None and callable(cc):
+                    try:
+                        cc()
+                    except Exception:
+                        pass
+            for k, c in cont.items():
+                v = names[k]
+                if v != c:
+                    fresh = copy.deepcopy(c)
+                    if isinstance(v, dict):
+                        v.clear()
+                        v.update(fresh)
+                    elif isinstance(v, list):
+                        v[:] = fresh
+                    elif isinstance(v, set):
+                        v.clear()
+                        v.update(fresh)
+                    elif isinstance(v, bytearray):
+                        v[:] = fresh
+            for k, (fd, dflt, kwd) in funcs.items():
+                f = names[k]
+                if f.__dict__ != fd:
+                    f.__dict__.clear()
+                    f.__dict__.update(fd)
+                if dflt is not None and f.__defaults__ is not None:
+                    try:
+                        if f.__defaults__ != dflt:
+                            f.__defaults__ = copy.deepcopy(dflt)
+                    except Exception:
+                        f.__defaults__ = copy.deepcopy(dflt)
+                if kwd is not None and f.__kwdefaults__ != kwd:
+                    f.__kwdefaults__ = copy.deepcopy(kwd)
+            for k, (cnames, cattrs) in classes.items():
+                cls = names[k]
+                for ck in list(cls.__dict__):
+                    if ck not in cnames:
+                        try:
+                            delattr(cls, ck)
+                        except Exception:
+                            pass
+                for ck, cv in cattrs.items():
+                    cur = cls.__dict__.get(ck)
+                    if cur != cv:
+                        try:
+                            setattr(cls, ck, copy.deepcopy(cv))
+                        except Exception:
+                            pass
+
     @contextlib.contextmanager
     def _plain_import(self):
         cur = builtins.__import__
@@ -153,28 +271,92 @@ class World(object):
             absname = name
         short = CY_ABS.get(absname)
         if short is not None:
-            ok = self.plan.decide(short)
-            if self.events is not None:
-                fr = sys._getframe(1)
-                self.events.append(('import', short, fr.f_code.co_name, 1 if ok else 0))
-            if not ok:
-                raise ModuleNotFoundError("No module named %r" % absname, name=absname)
-            mod = self.compiled[short]
-            if self.shadow is not None:
-                mod = self.shadow.wrap(short, mod)
+            mod = self._decide_module(short, absname, sys._getframe(1).f_code.co_name)
+            if not fromlist:
+                # plain `import pyspike.cython.cython_x`: the statement binds the top-level package and
+                # reaches the module by attribute; make it reachable for the rest of this run only
+                pkg = sys.modules['pyspike.cython']
+                setattr(pkg, short, mod)
+                self._injected.append((pkg, short))
+                return sys.modules['pyspike']
             return mod
+        if absname == 'pyspike.cython' and fromlist and any(n in CY for n in fromlist):
+            # `from pyspike.cython import cython_x` / `from . import cython_x`
+            real = self._real_import('pyspike.cython', None, None, ('__name__',), 0)
+            got = {}
+            for n in fromlist:
+                if n in CY:
+                    got[n] = self._decide_module(n, 'pyspike.cython.' + n, sys._getframe(1).f_code.co_name,
+                                                 as_name=True)
+            return _PkgProxy(real, got)
         if self.shadow is not None and absname in PYB_ABS and fromlist:
             return self.shadow.wrap(PYB_ABS[absname], self.pyb[PYB_ABS[absname]])
         return self._real_import(name, globals, locals, fromlist, level)
 
+    def _decide_module(self, short, absname, site, as_name=False):
+        ok = self.plan.decide(short)
+        if self.events is not None:
+            self.events.append(('import', short, site, 1 if ok else 0))
+        if not ok:
+            if as_name:
+                raise ImportError("cannot import name %r from 'pyspike.cython'" % short, name='pyspike.cython')
+            raise ModuleNotFoundError("No module named %r" % absname, name=absname)
+        mod = self.compiled[short]
+        if self.shadow is not None:
+            mod = self.shadow.wrap(short, mod)
+        return mod
+
+    def _import_module(self, name, package=None):
+        absname = name
+        if name.startswith('.') and package:
+            level = len(name) - len(name.lstrip('.'))
+            base = package.rsplit('.', level - 1)[0] if level > 1 else package
+            absname = base + '.' + name.lstrip('.') if name.lstrip('.') else base
+        short = CY_ABS.get(absname)
+        if short is not None:
+            return self._decide_module(short, absname, 'importlib.import_module')
+        return self._real_import_module(name, package)
+
+    def _find_spec(self, name, package=None):
+        absname = name
+        if name.startswith('.') and package:
+            absname = package + name
+        short = CY_ABS.get(absname)
+        if short is not None:
+            ok = self.plan.decide(short)
+            if self.events is not None:
+                self.events.append(('find_spec', short, 'importlib.util.find_spec', 1 if ok else 0))
+            if not ok:
+                return None
+            import importlib.machinery
+            return importlib.machinery.ModuleSpec(absname, None, origin=self.compiled[short].__file__)
+        return self._real_find_spec(name, package)
+
     def install(self):
         if not self.installed:
+            import importlib
+            import importlib.util
+            self._real_import_module = importlib.import_module
+            self._real_find_spec = importlib.util.find_spec
             builtins.__import__ = self._import
+            importlib.import_module = self._import_module
+            importlib.util.find_spec = self._find_spec
+            self._injected = []
             self.installed = True
 
     def uninstall(self):
         if self.installed:
+            import importlib
+            import importlib.util
             builtins.__import__ = self._real_import
+            importlib.import_module = self._real_import_module
+            importlib.util.find_spec = self._real_find_spec
+            for pkg, name in self._injected:
+                try:
+                    delattr(pkg, name)
+                except AttributeError:
+                    pass
+            self._injected = []
             self.installed = False
 
     @contextlib.contextmanager
